@@ -70,6 +70,8 @@ def r_varmap(rule, root=None):
     t = A.ftxt(fn["body"])
     need = ["self.x.map(|x|(Var::X,x))", "self.y.map(|y|(Var::Y,y))", "self.z.map(|z|(Var::Z,z))", "self.v.iter().map(|(v,k)|(Var::V(*v),*k))"]
     miss = [n for n in need if n not in t]
+    if miss and need[3] in A.ftxt(A.value_view(fn["body"])) and _axis_pairs(fn) == {"X": "x", "Y": "y", "Z": "z"}:
+        miss = []
     if not miss:
         rule.ok("VarMap::iter pairs every variable with its own index")
     else:
@@ -93,6 +95,40 @@ from .. import factrules as FR
 
 
 VAR = "fidget-core/src/var/mod.rs"
+
+
+def _axis_pairs(fn):
+    """{axis variant: VarMap field whose index it is paired with} in VarMap::iter, for the two spellings
+    `self.f.map(|i| (Var::A, i))` and a table `[(Var::A, self.f), ..]` unwrapped pairwise"""
+    import re as _re
+
+    pairs = {}
+    body = fn["body"]
+    text = str(A.ftxt(A.value_view(body)))
+    unwrap = _re.search(r"\|\((\w+),(\w+)\)\|\2\.map\(\|(\w+)\|\(\1,\3\)\)", text) is not None
+    for t in A.find(body, "Tuple"):
+        if len(t["elems"]) != 2:
+            continue
+        segs = A.path_segs(A.strip(t["elems"][0])) or []
+        if len(segs) != 2 or segs[0] != "Var" or segs[1] not in ("X", "Y", "Z"):
+            continue
+        e2 = A.strip(t["elems"][1])
+        f = None
+        if A.ident(e2):
+            for c in A.find(body, "MethodCall"):
+                if c["method"] == "map" and len(c["args"]) == 1 and c["args"][0].get("k") == "Closure" and any(n is t for n in A.walk(c["args"][0]["body"])):
+                    ps = c["args"][0].get("inputs", [])
+                    m = _re.fullmatch(r"self\.(\w)", str(A.ftxt(A.strip(c["recv"]))))
+                    if len(ps) == 1 and A.binding_name(ps[0]) == A.ident(e2) and m:
+                        f = m.group(1)
+        else:
+            m = _re.fullmatch(r"self\.(\w)", str(A.ftxt(e2)))
+            if m and unwrap:
+                f = m.group(1)
+        if f is None or segs[1] in pairs:
+            return None
+        pairs[segs[1]] = f
+    return pairs
 
 
 def r_var_identity(rule, root=None):
